@@ -35,6 +35,15 @@ theorem trace_wellformed_partial (G : LGraph) (cfg : Cfg) (ρ : VNode → List C
   · unfold run at hcoh; rw [hcoh] at h; exact absurd h (by simp)
   · exact h.2
 
+/-- With the repair proposed in /verif/fixes/C03_closure_trace_mismatch.patch (`closureCheck`: the
+closure on top of ClosureTrace is used only if it is a closure of the free variable's function)
+the property's last sentence holds at FULL strength: for every graph, order, fuel, entry. -/
+theorem trace_wellformed_fixed (G : LGraph) (cfg : Cfg) (hfix : cfg.closureCheck = true)
+    (ρ : VNode → List Cand → List Cand) (hρ : ∀ v l c, c ∈ ρ v l → c ∈ l)
+    (fuel entry : Nat) (pei0 : List (Nat × Int)) :
+    ∀ t ∈ (run G cfg ρ fuel entry pei0).traces, TraceWF (Linked G) entry t :=
+  trace_wellformed_partial G cfg ρ hρ fuel entry pei0 (loop_coherent_fixed G cfg ρ hfix fuel _ rfl)
+
 /-- What the oracle evaluates on every REAL trace is exactly the specification. -/
 theorem real_trace_criterion (G : LGraph) (entry : Nat) (t : List Nat) :
     traceWFB G entry t = true ↔ TraceWF (Linked G) entry t := traceWFB_iff G entry t
